@@ -44,6 +44,18 @@ func ruleDecodeChild(args []string) int {
 		var kib int
 		go func() {
 			kib = allocKiB(func() { text, ret = toCmd(wire) })
+			// the other mode of the exported function: ids resolved to names, and again (what was learnt - or not
+			// found - the first time is used the second time)
+			for k := 0; k < 2 && ret != "panic"; k++ {
+				func() {
+					defer func() {
+						if p := recover(); p != nil {
+							ret = "panic"
+						}
+					}()
+					rule.ToCommandLine(rule.WireFormat(wire), true)
+				}()
+			}
 			close(done)
 		}()
 		select {
@@ -435,6 +447,8 @@ func flagValue(r *rand.Rand, letter string, env *ruleEnv) (string, string) {
 			return field + op + env.word(1+r.Intn(30), true), "special"
 		case 4:
 			return field + op + "x y", "value-with-space"
+		case 5: // characters that are blank to Unicode but not to the shell: they are part of the word
+			return field + op + []string{"/tmp/x\r", "a\vb", "a\fb", "a\u00a0b", "a\u2028b", "\u00a0x", "x\u3000"}[r.Intn(7)], "unicode-blank"
 		default:
 			return field + op + strconv.Itoa(r.Intn(100000)), "plain"
 		}
@@ -470,7 +484,7 @@ func flagValue(r *rand.Rand, letter string, env *ruleEnv) (string, string) {
 		if r.Intn(6) == 0 {
 			return "", "empty-value" // an empty argument is an argument: a second -w after it is a repeated -w
 		}
-		return []string{"/etc/passwd", "/tmp", "/var/log/x.log"}[r.Intn(3)], "plain"
+		return []string{"/etc/passwd", "/tmp", "/var/log/x.log", "/srv/a\u00a0b", "/var/log/a\vb"}[r.Intn(5)], "plain"
 	case "p":
 		return []string{"r", "w", "x", "a", "rw", "wa", "rwxa", "ar", "rwa", ""}[r.Intn(10)], "plain"
 	}
@@ -507,7 +521,8 @@ func ruleFlagsCmd(args []string) int {
 				case "D":
 					argv = append(argv, "-D")
 				case "X":
-					argv = append(argv, []string{"stray", "open", "uid=0", "/tmp", "", " "}[rng.Intn(6)]) // an empty word is a word
+					// an empty word is a word; a help flag is not an audit rule flag
+				argv = append(argv, []string{"stray", "open", "uid=0", "/tmp", "", " ", "-h", "-help", "--help", "--h", "-x"}[rng.Intn(11)])
 					cls = "positional"
 				default:
 					v, vc := flagValue(rng, letter, env)
@@ -518,6 +533,17 @@ func ruleFlagsCmd(args []string) int {
 				}
 			}
 			text := shellQuote(argv)
+			// half of the lines that need no quoting by the splitter's own rules (it splits at blank, tab and
+			// newline; quotes and backslash are its only special characters) are written bare
+			bare := rng.Intn(2) == 0
+			for _, a := range argv {
+				if a == "" || strings.ContainsAny(a, " \t\n'\"\\") {
+					bare = false
+				}
+			}
+			if bare {
+				text = strings.Join(argv, " ")
+			}
 			trace++
 			rec := map[string]interface{}{"k": "flags", "trace": trace, "cls": cls, "line": text, "ret": "err",
 				"rule": describeRule(nil)}
